@@ -1,14 +1,325 @@
 /-
 C14 — server discovery tries every candidate in SRV order before giving up.
-(work in progress: pinning lemmas first)
+Property theorems only (model: Model/Discovery.lean, helper lemmas: Lemmas/Discovery.lean).
+
+Reading of the property in terms of the model.
+* `Env` = the external engines: the SRV answer (`srv`, what `resolver_srv_lookup` returns; its
+  order is C15's sort, see `srv_targets_sorted`), `getaddrinfo` per host (`addrs`), the kernel's /
+  peer's treatment of each endpoint (`beh`: refuse, fail late, hang, accept).  All theorems
+  quantify over every `Env`, every connect call `Cfg`, and every loop schedule `ticks`
+  (milliseconds between successive `xmpp_run_once` calls).
+* `exec true env cfg t0 ticks` = the connect call on a fresh connection at time `t0`, then the loop.
+* `candidates env cfg` = the targets in list order, for each target its addresses in resolver order.
+* "failure reported" = `Outcome.failed`: non-zero return code or an XMPP_CONN_DISCONNECT event.
+
+History: before /repo commit d125b74 `failure_only_after_all` was FALSE (D18); the witness is kept
+as `d18_unfixed_violates` about the model of the old loop (`fixed = false`).
 -/
-import Strophe.Model.Discovery
+import Strophe.Lemmas.Discovery
+import Strophe.Props.C15
 
 namespace Strophe.C14
 open Strophe Strophe.Discovery
 
-/-- the literals the property names: 5 s connect timeout, ports 5222 / 5223 / 5347 -/
+/-! ### pinning lemmas: the literals the property names -/
+
+/-- 5 s connect timeout; 5222 / 5223 / 5347; XMPP_EINT = -3; 256-byte target field -/
 theorem pin_constants : Gen.Disc.connectTimeout = 5000 ∧ Gen.Disc.portClient = 5222 ∧
-    Gen.Disc.portClientLegacySsl = 5223 ∧ Gen.Disc.portComponent = 5347 := by decide
+    Gen.Disc.portClientLegacySsl = 5223 ∧ Gen.Disc.portComponent = 5347 ∧ Gen.Disc.negEINT = 3 ∧
+    Gen.Disc.flagLegacySsl = 4 ∧ Gen.maxDomainLen = 256 := by decide
+
+/-- `_conn_default_port`: client 5222, legacy-SSL client 5223, component 5347 -/
+theorem default_ports : defaultPort false false = 5222 ∧ defaultPort true false = 5223 ∧
+    defaultPort false true = 5347 ∧ defaultPort true true = 5347 := by decide
+
+/-- the port handed to `sock_new`: the caller's, or the documented default when none is given -/
+theorem port_used (cfg : Cfg) :
+    (cfg.altport ≠ 0 → cfg.port = cfg.altport) ∧
+    (cfg.altport = 0 → cfg.kind = .component → cfg.port = 5347) ∧
+    (cfg.altport = 0 → cfg.kind ≠ .component → cfg.legacy = true → cfg.port = 5223) ∧
+    (cfg.altport = 0 → cfg.kind ≠ .component → cfg.legacy = false → cfg.port = 5222) := by
+  refine ⟨?_, ?_, ?_, ?_⟩
+  · intro h; simp [Cfg.port, h]
+  · intro h hk; simp [Cfg.port, h, hk, defaultPort, pin_constants.2.2.2.1]
+  · intro h hk hl
+    have : (cfg.kind == Kind.component) = false := by cases hc : cfg.kind <;> simp_all
+    simp [Cfg.port, h, this, hl, defaultPort, pin_constants.2.2.1]
+  · intro h hk hl
+    have : (cfg.kind == Kind.component) = false := by cases hc : cfg.kind <;> simp_all
+    simp [Cfg.port, h, this, hl, defaultPort, pin_constants.2.1]
+
+/-! ### SRV order -/
+
+/-- the targets come in ascending priority, heavier weight first within a priority: whatever the
+    DNS answer, the list `resolver_srv_lookup` hands to `sock_new` is sorted (C15) -/
+theorem srv_targets_sorted (answer : Option Bytes) (l : List Srv) (h : srvLookup answer = some l) :
+    C15.Sorted l := by
+  unfold srvLookup at h
+  cases answer with
+  | none => cases h
+  | some pkt =>
+    simp only at h
+    split at h
+    · cases h
+    · split at h
+      · next l' hl =>
+        injection h with h
+        subst h
+        exact C15.found_sorted pkt _ hl
+      · cases h
+
+/-- connecting by domain: the candidates are the SRV targets in list order, each with its
+    addresses in resolver order and the port of its record … -/
+theorem candidates_by_domain (env : Env) (cfg : Cfg) (l : List Srv) (hh : cfg.host = none)
+    (hs : env.srv = some l) :
+    candidates env cfg = l.flatMap fun r => (env.addrs r.target).map fun a => (a, r.port) := by
+  simp only [candidates, targets, hh, hs]
+  rfl
+
+/-- … and when the SRV lookup fails, the domain itself at the default (or given) port -/
+theorem srv_failure_falls_back_to_domain (env : Env) (cfg : Cfg) (hh : cfg.host = none)
+    (hs : env.srv = none) :
+    candidates env cfg = (env.addrs ((Jid.domain cfg.jid).take 255)).map fun a => (a, cfg.port) := by
+  simp [candidates, targets, hh, hs, endpointsOf, rrNew, pin_constants.2.2.2.2.2.2]
+
+/-! ### order of attempts -/
+
+/-- the sequence of `connect(2)` targets is, at every moment, a prefix of the candidate list:
+    nothing is tried out of order, twice, or skipped -/
+theorem attempt_order (env : Env) (cfg : Cfg) (t0 : Nat) (ticks : List Nat) :
+    attempts (exec true env cfg t0 ticks).run.acts <+: candidates env cfg := by
+  by_cases hwf : cfg.WellFormed
+  · have hi := exec_inv env False cfg t0 ticks hwf (fun h => h.elim)
+    cases hs : (exec true env cfg t0 ticks).run.conn.state with
+    | connecting =>
+      obtain ⟨⟨⟨xs, _, hC⟩, _, _, _⟩, _⟩ := hi.connecting hs
+      exact ⟨_, hC⟩
+    | connected =>
+      obtain ⟨⟨rest, hC⟩, _⟩ := hi.connected hs
+      exact ⟨_, hC⟩
+    | disconnected =>
+      rw [hi.disconnected hs]
+      exact List.prefix_refl _
+  · rw [(exec_illFormed env cfg t0 ticks hwf).2.1]
+    exact List.nil_prefix
+
+/-- whenever the connection is established, the endpoint in use accepts, it is the last one
+    tried, and every candidate before it was tried before it (any schedule) -/
+theorem accepted_endpoint (env : Env) (cfg : Cfg) (t0 : Nat) (ticks : List Nat)
+    (hc : (exec true env cfg t0 ticks).run.conn.state = .connected) :
+    ∃ pre ep post, candidates env cfg = pre ++ ep :: post ∧ (env.beh ep).ok = true ∧
+      (exec true env cfg t0 ticks).run.conn.sock = some ep ∧
+      attempts (exec true env cfg t0 ticks).run.acts = pre ++ [ep] := by
+  by_cases hwf : cfg.WellFormed
+  · have hi := exec_inv env False cfg t0 ticks hwf (fun h => h.elim)
+    obtain ⟨⟨rest, hC⟩, ⟨pre, ep, hsock, hatt, hok, _⟩, _⟩ := hi.connected hc
+    exact ⟨pre, ep, rest, by rw [← hC, hatt]; simp, hok, hsock, hatt⟩
+  · rw [(exec_illFormed env cfg t0 ticks hwf).1] at hc; cases hc
+
+/-- it uses the FIRST endpoint that accepts: if the loop is run at least every CONNECT_TIMEOUT ms
+    (so that an accepting endpoint cannot be mistaken for one that timed out), the endpoint in
+    use is the first candidate that accepts, and exactly the candidates up to it were tried -/
+theorem first_accept_wins (env : Env) (cfg : Cfg) (t0 : Nat) (ticks : List Nat)
+    (hsched : ∀ t ∈ ticks, t ≤ Gen.Disc.connectTimeout)
+    (hc : (exec true env cfg t0 ticks).run.conn.state = .connected) :
+    ∃ pre ep post, candidates env cfg = pre ++ ep :: post ∧
+      (∀ e ∈ pre, (env.beh e).ok = false) ∧ (env.beh ep).ok = true ∧
+      (exec true env cfg t0 ticks).run.conn.sock = some ep ∧
+      attempts (exec true env cfg t0 ticks).run.acts = pre ++ [ep] := by
+  by_cases hwf : cfg.WellFormed
+  · have hi := exec_inv env True cfg t0 ticks hwf (fun _ => hsched)
+    obtain ⟨⟨rest, hC⟩, ⟨pre, ep, hsock, hatt, hok, hpre⟩, _⟩ := hi.connected hc
+    exact ⟨pre, ep, rest, by rw [← hC, hatt]; simp, hpre trivial, hok, hsock, hatt⟩
+  · rw [(exec_illFormed env cfg t0 ticks hwf).1] at hc; cases hc
+
+/-- failure (return code of the connect call, or a DISCONNECT notification) is reported only
+    after every candidate was attempted -/
+theorem failure_only_after_all (env : Env) (cfg : Cfg) (t0 : Nat) (ticks : List Nat)
+    (hwf : cfg.WellFormed) (hf : (exec true env cfg t0 ticks).failed) :
+    attempts (exec true env cfg t0 ticks).run.acts = candidates env cfg := by
+  have hi := exec_inv env False cfg t0 ticks hwf (fun h => h.elim)
+  rcases hf with hrc | ⟨e, he⟩
+  · -- the connect call itself failed: the connection never left DISCONNECTED
+    obtain ⟨hi0, hrc0, _, _⟩ := connect_inv env False t0 cfg hwf
+    have hd : (connect true env t0 {} cfg).conn.state = .disconnected := hrc0.mp hrc
+    have hidle := runTicks_idle env ticks ⟨(connect true env t0 {} cfg).conn, t0,
+      (connect true env t0 {} cfg).acts, []⟩ (by simp [hd])
+    have : (exec true env cfg t0 ticks).run.conn.state = .disconnected := by
+      unfold exec; simp only; rw [hidle.1]; exact hd
+    exact hi.disconnected this
+  · cases hs : (exec true env cfg t0 ticks).run.conn.state with
+    | connecting => exact absurd he ((hi.connecting hs).1.noDisc e)
+    | connected => exact absurd he ((hi.connected hs).2.2 e)
+    | disconnected => exact hi.disconnected hs
+
+/-- … and it does move on: once the loop has run more often than there are candidates, each
+    time after the timeout has passed, the outcome is decided (connected, or failure reported) -/
+theorem eventually_decides (env : Env) (cfg : Cfg) (t0 : Nat) (ticks : List Nat)
+    (ht : ∀ t ∈ ticks, Gen.Disc.connectTimeout < t)
+    (hlen : (candidates env cfg).length ≤ ticks.length) :
+    (exec true env cfg t0 ticks).run.conn.state ≠ .connecting := by
+  by_cases hwf : cfg.WellFormed
+  · obtain ⟨hi0, _, _, _⟩ := connect_inv env False t0 cfg hwf
+    by_cases hs : (connect true env t0 {} cfg).conn.state = .connecting
+    · obtain ⟨⟨⟨xs, hx, hC⟩, ⟨pre, ep, _, hatt, _⟩, _, _⟩, _⟩ := hi0.connecting hs
+      have hlt : (rem env xs).length < ticks.length := by
+        have : (candidates env cfg).length = (pre ++ [ep]).length + (rem env xs).length := by
+          rw [← hC]; simp only at hatt; simp [hatt] <;> omega
+        simp at this; omega
+      exact runTicks_decides env _ ticks _ xs hi0 hx ht hlt
+    · have hidle := runTicks_idle env ticks ⟨(connect true env t0 {} cfg).conn, t0,
+        (connect true env t0 {} cfg).acts, []⟩ hs
+      unfold exec; simp only; rw [hidle.1]; exact hs
+  · rw [(exec_illFormed env cfg t0 ticks hwf).1]; decide
+
+/-! ### bypassing SRV -/
+
+private theorem bypass (env : Env) (cfg : Cfg) (t0 : Nat) (ticks : List Nat) (h : Host)
+    (hwf : cfg.WellFormed) (hh : cfg.host = some h) :
+    (exec true env cfg t0 ticks).queried = false ∧
+    (∀ s, exec true { env with srv := s } cfg t0 ticks = exec true env cfg t0 ticks) ∧
+    candidates env cfg = (env.addrs (h.take 255)).map fun a => (a, cfg.port) := by
+  refine ⟨?_, ?_, ?_⟩
+  · have := (connect_inv env False t0 cfg hwf).2.2.2
+    unfold exec; simp only; rw [this]; simp [targets, hh]
+  · intro s
+    exact exec_sameNet { env with srv := s } env ⟨rfl, rfl⟩ cfg t0 ticks (by simp [hh])
+  · simp [candidates, targets, hh, endpointsOf, rrNew, pin_constants.2.2.2.2.2.2]
+
+/-- an explicitly given host bypasses SRV: no SRV query is made, the outcome does not depend on
+    what an SRV lookup would have answered, the only target is that host (its name cut to the
+    255 bytes of the target field) at the given port or, when none is given, 5222 (5223 with
+    legacy SSL).  (A port given WITHOUT a host does not bypass SRV: it is only the port of the
+    fall-back to the domain, see `srv_failure_falls_back_to_domain`.) -/
+theorem explicit_host_bypasses_srv (env : Env) (cfg : Cfg) (t0 : Nat) (ticks : List Nat) (h : Host)
+    (hk : cfg.kind ≠ .component) (hh : cfg.althost = some h) :
+    (exec true env cfg t0 ticks).queried = false ∧
+    (∀ s, exec true { env with srv := s } cfg t0 ticks = exec true env cfg t0 ticks) ∧
+    candidates env cfg = (env.addrs (h.take 255)).map (fun a => (a, cfg.port)) ∧
+    (cfg.altport = 0 → cfg.port = if cfg.legacy then 5223 else 5222) := by
+  have hhost : cfg.host = some h := by
+    unfold Cfg.host
+    cases hc : cfg.kind <;> simp_all
+  obtain ⟨a, b, c⟩ := bypass env cfg t0 ticks h (fun hk' => absurd hk' hk) hhost
+  refine ⟨a, b, c, ?_⟩
+  intro hp
+  cases hl : cfg.legacy with
+  | true => simpa using (port_used cfg).2.2.1 hp hk hl
+  | false => simpa using (port_used cfg).2.2.2 hp hk hl
+
+/-- legacy-SSL mode (no SRV record exists for the tunnelled port) and component mode bypass SRV:
+    the domain of the JID resp. the given server is the only target, at the given port or 5223
+    resp. 5347 -/
+theorem legacy_ssl_and_component_bypass (env : Env) (cfg : Cfg) (t0 : Nat) (ticks : List Nat) :
+    (cfg.kind ≠ .component → cfg.legacy = true → cfg.althost = none →
+      (exec true env cfg t0 ticks).queried = false ∧
+      (∀ s, exec true { env with srv := s } cfg t0 ticks = exec true env cfg t0 ticks) ∧
+      candidates env cfg = (env.addrs ((Jid.domain cfg.jid).take 255)).map (fun a => (a, cfg.port)) ∧
+      (cfg.altport = 0 → cfg.port = 5223)) ∧
+    (∀ server, cfg.kind = .component → cfg.WellFormed → cfg.althost = some server →
+      (exec true env cfg t0 ticks).queried = false ∧
+      (∀ s, exec true { env with srv := s } cfg t0 ticks = exec true env cfg t0 ticks) ∧
+      candidates env cfg = (env.addrs (server.take 255)).map (fun a => (a, cfg.port)) ∧
+      (cfg.altport = 0 → cfg.port = 5347)) := by
+  constructor
+  · intro hk hl ha
+    have hhost : cfg.host = some (Jid.domain cfg.jid) := by
+      unfold Cfg.host
+      cases hc : cfg.kind <;> simp_all
+    obtain ⟨a, b, c⟩ := bypass env cfg t0 ticks _ (fun hk' => absurd hk' hk) hhost
+    exact ⟨a, b, c, fun hp => (port_used cfg).2.2.1 hp hk hl⟩
+  · intro server hk hwf ha
+    have hhost : cfg.host = some server := by
+      unfold Cfg.host
+      simp [hk, ha]
+    obtain ⟨a, b, c⟩ := bypass env cfg t0 ticks _ hwf hhost
+    exact ⟨a, b, c, fun hp => (port_used cfg).2.1 hp hk⟩
+
+/-! ### D18: the loop before d125b74 -/
+
+/-- SRV targets a (prio 1), b (prio 2), c (prio 3, port 5269); a and b resolve to nothing, c has
+    one accepting address -/
+def d18Env : Env where
+  srv := some [⟨1, 0, 5222, cs ['a']⟩, ⟨2, 0, 5222, cs ['b']⟩, ⟨3, 0, 5269, cs ['c']⟩]
+  addrs := fun h => if h = cs ['c'] then [⟨4, 3⟩] else []
+  beh := fun _ => .accept
+
+def d18Cfg : Cfg := ⟨.raw, cs ['x', '.', 'o', 'r', 'g'], none, 0, 0⟩
+
+/-- with the old single-reload loop the connect call fails (XMPP_EINT) although the one candidate
+    was never tried: `failure_only_after_all` is false of that code (corpus/C14/d18.ops on the real
+    code before the fix: `= rc -3 q 1 tr g:61:5222,g:62:5222 st disconnected`) -/
+theorem d18_unfixed_violates :
+    ¬ ∀ (env : Env) (cfg : Cfg) (t0 : Nat) (ticks : List Nat), cfg.WellFormed →
+        (exec false env cfg t0 ticks).failed →
+        attempts (exec false env cfg t0 ticks).run.acts = candidates env cfg := by
+  intro h
+  have := h d18Env d18Cfg 0 [] (by intro hk; cases hk) (Or.inl (by decide))
+  revert this
+  decide
+
+/-- … and the current loop reaches c on the same input -/
+theorem d18_fixed_reaches_c :
+    (exec true d18Env d18Cfg 0 [1]).run.conn.state = .connected ∧
+    attempts (exec true d18Env d18Cfg 0 [1]).run.acts = [(⟨4, 3⟩, 5269)] ∧
+    (exec true d18Env d18Cfg 0 [1]).run.evs = [.rawConnect] := by decide
+
+/-! ### non-vacuity -/
+
+/-- two targets; first address refuses, second fails late, third hangs, fourth accepts -/
+def exEnv : Env where
+  srv := some [⟨0, 5, 5222, cs ['a']⟩, ⟨0, 1, 5223, cs ['b']⟩]
+  addrs := fun h => if h = cs ['a'] then [⟨4, 1⟩, ⟨6, 2⟩] else if h = cs ['b'] then [⟨4, 3⟩, ⟨4, 4⟩, ⟨4, 5⟩] else []
+  beh := fun e => if e = (⟨4, 1⟩, 5222) then .refuse else if e = (⟨6, 2⟩, 5222) then .late
+    else if e = (⟨4, 3⟩, 5223) then .hang else .accept
+
+def exCfg : Cfg := ⟨.raw, cs ['u', '@', 'x', '.', 'o', 'r', 'g', '/', 'r'], none, 0, 0⟩
+
+/-- `first_accept_wins` / `accepted_endpoint`: hypotheses satisfiable on a schedule within the
+    timeout, after a refused, a late-failing and a timed-out candidate -/
+example : (∀ t ∈ [1, 5000, 5000, 1], t ≤ Gen.Disc.connectTimeout) ∧
+    (exec true exEnv exCfg 7 [1, 5000, 5000, 1]).run.conn.state = .connected ∧
+    attempts (exec true exEnv exCfg 7 [1, 5000, 5000, 1]).run.acts =
+      [(⟨4, 1⟩, 5222), (⟨6, 2⟩, 5222), (⟨4, 3⟩, 5223), (⟨4, 4⟩, 5223)] ∧
+    candidates exEnv exCfg =
+      [(⟨4, 1⟩, 5222), (⟨6, 2⟩, 5222), (⟨4, 3⟩, 5223), (⟨4, 4⟩, 5223), (⟨4, 5⟩, 5223)] := by decide
+
+/-- `failure_only_after_all`: a failing discovery (DISCONNECT after a late failure and a timeout) -/
+def exEnvFail : Env := { exEnv with beh := fun e => if e.2 = 5222 then .late else .hang }
+
+example : exCfg.WellFormed ∧ (exec true exEnvFail exCfg 0 [1, 1, 5001, 5001, 5001]).failed ∧
+    (exec true exEnvFail exCfg 0 [1, 1, 5001, 5001, 5001]).run.evs = [.disconnect .timeout] ∧
+    (exec true exEnvFail exCfg 0 [1, 1, 5001, 5001, 5001]).negRc = 0 := by
+  refine ⟨(by intro hk; cases hk), Or.inr ⟨.timeout, (by decide)⟩, (by decide), (by decide)⟩
+
+/-- … and one reported by the return code -/
+example : (exec true { exEnv with beh := fun _ => .refuse } exCfg 0 []).negRc = 3 ∧
+    attempts (exec true { exEnv with beh := fun _ => .refuse } exCfg 0 []).run.acts =
+      candidates exEnv exCfg := by decide
+
+/-- `eventually_decides`: hypotheses satisfiable -/
+example : (∀ t ∈ [5001, 5001, 6000, 5001, 9000], Gen.Disc.connectTimeout < t) ∧
+    (candidates exEnvFail exCfg).length ≤ [5001, 5001, 6000, 5001, 9000].length := by decide
+
+/-- bypass: explicit host with legacy SSL on a raw connection; component -/
+example : (⟨.raw, cs ['x'], some (cs ['h']), 0, 4⟩ : Cfg).port = 5223 ∧
+    (exec true exEnv ⟨.raw, cs ['x'], some (cs ['h']), 0, 4⟩ 0 []).queried = false ∧
+    (⟨.component, cs ['c', '.', 'x'], some (cs ['h']), 0, 0⟩ : Cfg).port = 5347 ∧
+    (⟨.raw, cs ['x'], none, 0, 0⟩ : Cfg).port = 5222 ∧
+    (exec true exEnv ⟨.raw, cs ['x'], none, 0, 0⟩ 0 []).queried = true := by decide
+
+example : (⟨.component, cs ['c', '.', 'x'], some (cs ['h']), 0, 0⟩ : Cfg).WellFormed := by
+  intro _; decide
+
+/-- `srv_targets_sorted`: its hypothesis is met by real answers — the compressed two-record response
+    `data5` of tests/test_resolver.c (C15) is handed to `sock_new` in priority order -/
+example : srvLookup (some C15.data5) = some [
+    ⟨30, 30, 5222, cs ['h','e','r','m','e','s','2','.','j','a','b','b','e','r','.','o','r','g']⟩,
+    ⟨31, 30, 5222, cs ['h','e','r','m','e','s','2','v','6','.','j','a','b','b','e','r','.','o','r','g']⟩] := by
+  decide +kernel
+
+/-- a failed `res_query` and an answer without SRV records both mean "not found" -/
+example : srvLookup none = none ∧ srvLookup (some []) = none ∧
+    srvLookup (some [0, 0, 0x81, 0x80, 0, 0, 0, 0, 0, 0, 0, 0]) = none := by decide +kernel
 
 end Strophe.C14
